@@ -253,3 +253,9 @@ Theorem norm0_second_pass_is_a_fixed_point c p : norm0 c (norm0 c (norm0 c p)) =
 Proof. apply norm0_idempotent. apply guard_free_norm0. Qed.
 Theorem format0_third_pass_changes_nothing c p : format0 c (norm0 c (norm0 c p)) = format0 c (norm0 c p).
 Proof. apply format0_of_its_tree. apply guard_free_norm0. Qed.
+
+(* ---------- C02 / C05 for conditions on L0: the layers of parentheses a condition loses cannot matter ---------- *)
+Lemma shape_core e : shape (core e) = strip (shape e).
+Proof. induction e; try reflexivity. exact IHe. Qed.
+Theorem ncond_keeps_the_first_value e : first_value (Sm (shape (ncond e))) = first_value (Sm (shape e)).
+Proof. rewrite ncond_core, shape_nexp, shape_core. apply condition_rule_keeps_first_value. Qed.
